@@ -194,7 +194,38 @@ def gen_compute(out_path):
     return log
 
 
-GENERATORS = {"compute": gen_compute}
+def gen_extract(out_path):
+    """clock-bound-d: extract_bound_from_tracking (shm_writer.rs), ChronyClockStatus + From<u16> (lib.rs)."""
+    log = []
+    parts = {}
+    try:
+        lib = _read("clock-bound-d/src/lib.rs")
+        s, ob, e = ex.item(lib, r"^pub enum ChronyClockStatus\s*\{", "enum ChronyClockStatus")
+        txt = ex.strip_attrs_and_docs(lib[s:e])
+        parts["ITEM:d.enum_status"] = "#[derive(Clone, Copy)]\n" + re.sub(r"\n\s*\n", "\n", txt)
+        log.append({"item": "enum ChronyClockStatus", "rewrite": "attribute/doc lines dropped; derive reduced to Clone, Copy", "count": 1,
+                    "why": "derive(Debug, PartialEq) expansions are outside Verus's subset"})
+        s, ob, e = ex.item(lib, r"^impl From<u16> for ChronyClockStatus\s*\{", "impl From<u16> for ChronyClockStatus")
+        parts["ITEM:d.impl_from_u16"] = lib[s:e]
+        sw = _read("clock-bound-d/src/shm_writer.rs")
+        sig, body = ex.fn_parts(sw, "extract_bound_from_tracking")
+        parts["SIG:d.extract"] = _named(sig, log, "fn extract_bound_from_tracking (signature)", name="res")
+        parts["BODY:d.extract"] = body
+    except ex.ExtractError as err:
+        raise Undecided("extract", "extraction anchor lost: " + str(err))
+    log.append({"item": "chrony_candm::reply::Tracking / ChronyFloat, std::time", "rewrite": "hand-declared stand-ins (fields read by the function; opaque SystemTime/Duration specs)",
+                "count": 1, "why": "dependency types; the status part of the function is decided by Kani on the real types (C10)"})
+    tmpl = open(os.path.join(VERIF, "verus", "extract.rs.tmpl")).read()
+    try:
+        out = fill(tmpl, parts)
+    except ex.ExtractError as err:
+        raise Undecided("extract", str(err))
+    with open(out_path, "w") as f:
+        f.write(out)
+    return log
+
+
+GENERATORS = {"compute": gen_compute, "extract": gen_extract}
 
 
 def obligation_map(path):
